@@ -55,12 +55,13 @@ type Link struct {
 	Queue  []*Frame // emitted, not yet delivered or dropped
 	Peer   int      // link index frames are delivered to (-1: scripted peer reads the queue)
 	Sent   int
-	rx     chan func() // receive goroutine's inbox (created on first no-wait injection)
-	fd     int         // fd link: the simulated descriptor
-	fdrx   chan []byte // fd link: frames waiting to be read by the endpoint's dispatch loop
-	lastRx int         // fd link: length of the last frame queued for the dispatch loop
-	fdDead bool        // fd link: the dispatch loop has returned
-	NoLog  bool        // frames of this link are left out of the event-log hash (their bytes depend on map iteration order)
+	rx     chan func()     // receive goroutine's inbox (created on first no-wait injection)
+	fd     int             // fd link: the simulated descriptor
+	fdrx   chan []byte     // fd link: frames waiting to be read by the endpoint's dispatch loop
+	lastRx int             // fd link: length of the last frame queued for the dispatch loop
+	fdDead bool            // fd link: the dispatch loop has returned
+	Addrs  []tcpip.Address // addresses the harness assigned to this link's interface (sources the stack may use on it)
+	NoLog  bool            // frames of this link are left out of the event-log hash (their bytes depend on map iteration order)
 }
 
 func (l *Link) MTU() uint32                                  { return l.mtu }
@@ -97,11 +98,25 @@ func (l *Link) WritePacket(r *stack.Route, hdr buffer.Prependable, payload buffe
 	if w.TraceOn {
 		w.Tracef("emit link=%d frame=%d %s", l.Idx, f.ID, describe(f))
 	}
+	w.c06(f)
+	w.relObserve(f.Proto, f.Data, l.Idx, true)
 	if w.OnEmit != nil {
 		w.OnEmit(f)
 	}
 	w.yield("link.write")
 	return nil
+}
+
+// c06 passes the frame through the world's own monitor when C06 is being
+// decided and the world has no scripted-peer monitor of its own.
+func (w *World) c06(f *Frame) {
+	if currentProp != "C06" || w.peerMon {
+		return
+	}
+	if w.mon6 == nil {
+		w.mon6 = NewMonitor()
+	}
+	w.checkFrame(w.mon6, f)
 }
 
 // World is one simulated run.
@@ -131,6 +146,9 @@ type World struct {
 	Trace     []string // human-readable event log (kept in memory, written after the bubble)
 	TraceOn   bool
 	ipid      uint16 // identification counter of packets the scripted peer builds
+	mon6      *Monitor
+	rel       *relTrace
+	peerMon   bool // a scripted-peer world: its own monitor sees every frame
 }
 
 // Violation is the first oracle failure of a run.
@@ -178,7 +196,25 @@ func (w *World) Close() {
 	}
 }
 
+// currentProp is the property the running check decides (set by runSc).
+var currentProp string
+
+// c06Classes are the oracle classes of C06 (frame well-formedness and
+// addressing). When C06 drives the other checks' scenarios for the frames
+// they make the stack emit, every other oracle of those scenarios is muted.
+var c06Classes = map[string]bool{
+	"malformed-frame": true, "wrong-source-link-address": true, "wrong-link-address": true,
+	"wrong-source-address": true, "wrong-interface": true, "wrong-addressing": true, "panic": true,
+}
+
+// keeps reports whether a violation of the given class counts under the property being decided.
+func keeps(class string) bool { return currentProp != "C06" || c06Classes[class] }
+
 func (w *World) Fail(class, sig, format string, a ...interface{}) {
+	if !keeps(class) {
+		w.Probes["other_property_"+class]++
+		return
+	}
 	if w.Viol == nil {
 		w.Viol = &Violation{Class: class, Sig: sig, Detail: fmt.Sprintf(format, a...)}
 	}
@@ -284,6 +320,7 @@ func views(data []byte, mode int) buffer.VectorisedView {
 
 // Inject hands a network-layer packet to link l's stack.
 func (w *World) Inject(l *Link, proto tcpip.NetworkProtocolNumber, data []byte, src, dst tcpip.LinkAddress, mode int) {
+	w.relObserve(proto, data, l.Idx, false)
 	if l.fdrx != nil {
 		if !l.NoLog {
 			w.Log.Byte(0x80 | byte(l.Idx))
@@ -503,6 +540,7 @@ func (w *World) SimNanos() int64 { return int64(time.Since(w.T0)) }
 // pending at once, and their processing interleaves - at the seeded yield
 // points - with application goroutines and the stack's own goroutines.
 func (w *World) InjectNoWait(l *Link, proto tcpip.NetworkProtocolNumber, data []byte, mode int) {
+	w.relObserve(proto, data, l.Idx, false)
 	if l.fdrx != nil {
 		if !l.NoLog {
 			w.Log.Byte(0x80 | byte(l.Idx))
